@@ -23,7 +23,7 @@ FLOORS = {'quick': {'stop_emissions': 1500, 'sequenced_stop_emissions': 800, 'or
 COUNT = {'quick': 800, 'thorough': 16000}
 BUDGET_S = {'quick': 55, 'thorough': 540}
 
-KNOBS = {'n_min': 1, 'n_max': 4,
+KNOBS = {'stagger': [0.0, 1.0, 4.0, 30.0, 60.0], 'n_min': 1, 'n_max': 4,
          'apps': {'n_apps': (1, 3), 'n_progs': (2, 4), 'seq_max': 3, 'startsecs': (0, 3), 'stopwaitsecs': (1, 8),
                   'per_instance_diff': 0.05, 'managed_p': 0.85, 'autorestart': ('false',)},
          'behaviours': ['normal'] * 5 + ['slow_stop', 'slow_stop', 'stubborn', 'immortal'],
